@@ -722,5 +722,36 @@ pub open spec fn known_table() -> Map<Seq<char>, ControlType> {
     ensures map_r@ =~= known_table(), //# C03+C19.recognised_response_controls_are_tagged_with_their_own_type
 //@end
 
+// ======================================================================= the generic entry points RawControl::parse / Exop::parse
+// `rc.parse::<T>()` hands T's parser the control value itself -- the whole of it, unmodified -- and returns what it returns.
+// The traits are mirrored with a specification function for the parser's result so that "what T::parse returns on these bytes"
+// can be named; each implementation's own contract is above.
+pub trait ControlParser: Sized {
+    spec fn cp_wf(val: Seq<u8>) -> bool;
+    spec fn cp_parsed(val: Seq<u8>) -> Self;
+    fn parse(val: &[u8]) -> (r: Self) requires Self::cp_wf(val@) ensures r == Self::cp_parsed(val@);
+}
+pub trait ExopParser: Sized {
+    spec fn ep_wf(val: Seq<u8>) -> bool;
+    spec fn ep_parsed(val: Seq<u8>) -> Self;
+    fn parse(val: &[u8]) -> (r: Self) requires Self::ep_wf(val@) ensures r == Self::ep_parsed(val@);
+}
+impl RawControl {
+//@lift name=RawControl::parse file=src/controls_impl.rs impl="impl\s+RawControl\s*\{" fn=parse
+//@ ret r
+//@ spec
+    requires self.val matches Some(v) && T::cp_wf(v@), //# C19.raw_control_parse_needs_a_value_else_panics_by_contract
+    ensures r == T::cp_parsed(self.val->0@), //# C19.raw_control_parse_hands_the_whole_value_to_the_controls_parser
+//@end
+}
+impl Exop {
+//@lift name=Exop::parse file=src/exop_impl.rs impl="impl\s+Exop\s*\{" fn=parse
+//@ ret r
+//@ spec
+    requires self.val matches Some(v) && T::ep_wf(v@), //# C19.exop_parse_needs_a_value_else_panics_by_contract
+    ensures r == T::ep_parsed(self.val->0@), //# C19.exop_parse_hands_the_whole_value_to_the_exops_parser
+//@end
+}
+
 } // verus!
 fn main() {}
